@@ -556,10 +556,14 @@ def run(ck):
     ck.exhaustive = False
 
 
-# MUST_CATCH (planted in a scratch copy via VF_REPO; see final report of the authoring session):
-#  1. Spans.add: `adjacent()` first clause uses start0+length0+1 == start1 (off-by-one merge of adjacent spans)
-#  2. DataSpans.pop: does not call remove()
-#  3. Spans.__and__: bounds built one short (drops the last element of the intersection)
-#  4. DataSpans.add case B keeps the old prefix (later write does not win)
-#  5. Spans.remove: right-side trim off by one
-#  6. DataSpans.add: merge step removed (adjacent chunks left unmerged -> get() across chunks returns None)
+# MUST_CATCH -- planted in a scratch copy (VF_REPO); quick tier, seed 0; all caught (witnesses shrunk to 1..3 ops):
+#  adjacent(): start0+length0+1 == start1 (off-by-one merge)               -> adjacent-helper-mismatch, spans-add-mismatch, dataspans-structure-adjacent-unmerged
+#  DataSpans.pop does not remove                                           -> dataspans-pop-mismatch
+#  Spans.__and__ bounds one element short                                  -> spans-and-mismatch
+#  DataSpans.add case B keeps the old bytes (later write does not win)     -> dataspans-add-mismatch
+#  Spans.remove right-side trim off by one                                 -> spans-remove-mismatch (+ minus/isub/and)
+#  DataSpans.add merge step disabled                                       -> dataspans-structure-adjacent-unmerged, dataspans-add-raises
+#  DataSpans.get accepts a span one byte short                             -> dataspans-get-wrong-bytes, dataspans-pop-wrong-bytes
+#  Spans.__contains__ accepts a partial overlap                            -> spans-contains-mismatch
+#  DataSpans.remove middle split keeps the wrong right-hand bytes          -> dataspans-remove-mismatch, dataspans-pop-mismatch
+#  Spans.add ignores the end of the last overlapped span                   -> spans-add-mismatch (+ operator variants)
